@@ -79,9 +79,18 @@ def make_configs(rng, stats):
     return configs
 
 
+def key_for(p, cfg, bad):
+    """the recorded finding: --auto-schedule aborts in profile::Reader::getIterations (assert(false)) when the profile holds no
+    recursive join-size statistics for a recursive relation -- the relation's recursive clauses have a single atom of the
+    stratum and no join (e.g. r(c) :- r(x), y = x bshr 31, c = count : { e(y, y) }.)"""
+    if cfg.name == "auto-schedule" and isinstance(bad, dict) and bad.get("failed") == -6 and "Reader::getIterations" in bad.get("stderr", ""):
+        return "C07-auto-schedule-abort-no-recursive-join-size-statistics"
+    return None
+
+
 def main(pid, tier, seed, replay):
     stats = {}
-    return P.standard_check(pid, LEVEL, tier, seed, make_configs(C.SplitMix64(seed), stats), 30, 500, features,
+    return P.standard_check(pid, LEVEL, tier, seed, make_configs(C.SplitMix64(seed), stats), 30, 500, features, key_for=key_for, rule=
         "generated recursive programs x {default order, 3 random .plan assignments (random permutation per clause version), profile-guided auto-schedule}; "
         "non-trivial = distinct program with non-empty output",
         post=lambda chk, progs, oracle, st: st.update(stats))
